@@ -87,3 +87,24 @@ Print Assumptions C15_bytes_array_holds_all.
 Print Assumptions C15_bytes_mixed.
 Print Assumptions C15_bytes_exists_iff_nonempty.
 Print Assumptions C15_bytes_offsets_delimit_items.
+
+(* ---- the modes agree on FAILURE (Extra15.v): an error of one mode is the same error in every mode and with any buffer
+   content (likewise a panic, likewise success), at tree level and for the selector on the bytes of a valid document *)
+From JB Require Import Extra15.
+Theorem C15_modes_agree_on_errors :
+  (forall root ps m m' buf buf',
+     (forall e, select_t root ps m buf = Err e -> select_t root ps m' buf' = Err e) /\
+     (select_t root ps m buf = Panic -> select_t root ps m' buf' = Panic) /\
+     (forall r, select_t root ps m buf = Ok r -> exists r', select_t root ps m' buf' = Ok r')) /\
+  (forall v ps m m' buf buf', wfb v = true ->
+     (forall e, select_w (enc v) ps m buf = Err e -> select_w (enc v) ps m' buf' = Err e) /\
+     (select_w (enc v) ps m buf = Panic -> select_w (enc v) ps m' buf' = Panic) /\
+     (forall r, select_w (enc v) ps m buf = Ok r -> exists r', select_w (enc v) ps m' buf' = Ok r')).
+Proof. split; [exact select_t_modes_agree_on_errors|exact select_w_modes_agree_on_errors]. Qed.
+Print Assumptions C15_modes_agree_on_errors.
+
+(* exists_path fails exactly when select does (non-predicate paths; for a predicate path exists answers true unevaluated) *)
+Theorem C15_exists_fails_with_select : forall root ps m buf, is_predicate ps = false ->
+  failure (exists_t root ps) = failure (select_t root ps m buf).
+Proof. exact exists_t_fails_with_select. Qed.
+Print Assumptions C15_exists_fails_with_select.
